@@ -33,8 +33,9 @@ type cancelSpec struct {
 	Jitter      int    `json:"jitter_us"` // free-running variant: cancel after this many microseconds instead of at a hook
 	Allow       bool   `json:"allow_failure"`
 	Interactive bool   `json:"interactive,omitempty"`
-	TaskTimeout bool   `json:"task_timeout,omitempty"` // the tasks have a (long) timeout of their own
-	Nested      bool   `json:"nested,omitempty"`       // the whole pipeline is included by a stage of an outer pipeline
+	Shared      bool   `json:"included_twice,omitempty"` // with Nested: two stages of the outer pipeline include it
+	TaskTimeout bool   `json:"task_timeout,omitempty"`   // the tasks have a (long) timeout of their own
+	Nested      bool   `json:"nested,omitempty"`         // the whole pipeline is included by a stage of an outer pipeline
 }
 
 type cancelHarness struct {
@@ -275,7 +276,11 @@ func modeCancel1(a args) {
 			}
 			top := g
 			if sp.Nested {
-				top, err = scheduler.NewExecutionGraph(&scheduler.Stage{Name: "included", Pipeline: g})
+				outer := []*scheduler.Stage{{Name: "included", Pipeline: g}}
+				if sp.Shared {
+					outer = append(outer, &scheduler.Stage{Name: "included-again", Pipeline: g})
+				}
+				top, err = scheduler.NewExecutionGraph(outer...)
 				if err != nil {
 					panic(err)
 				}
